@@ -396,8 +396,8 @@ def _read_host(r: Reader, host: str):
             t = r.require_token()
             if t.vsrc.lstrip(ALL_WS).startswith('-'):
                 raise Unsupported('option-like file name')  # PATH: [RELATIVITY-OPTION] FILE-NAME
-            for m in REF_RE.finditer(r.src[pos0:line_end(r.src, pos0)]):
-                # (anywhere on the line: which token is the file name depends on the reading)
+            for m in REF_RE.finditer(r.src[pos0:]):
+                # (anywhere behind: which token is the file name depends on the reading, and a token may span lines)
                 if r.symbols.get(m.group(1), ('string', ''))[0] != 'string':
                     raise Unsupported('list / path symbol in a file name')
             v = r.string_()
